@@ -58,7 +58,16 @@ def generate():
     def check_test(t):
         if isinstance(t, ast.BoolOp):
             return all(check_test(v) for v in t.values)
-        if isinstance(t, ast.Compare) and len(t.ops) == 1 and isinstance(t.ops[0], ast.Eq):
+        if isinstance(t, ast.UnaryOp) and isinstance(t.op, ast.Not):
+            return check_test(t.operand)
+        if isinstance(t, ast.Compare) and len(t.ops) == 1 and isinstance(t.ops[0], (ast.In, ast.NotIn)) and \
+                isinstance(t.comparators[0], (ast.Tuple, ast.List, ast.Set)):
+            l, elts = t.left, t.comparators[0].elts
+            if isinstance(l, ast.Name) and l.id == 'state' and all(isinstance(e, ast.Name) and e.id in consts for e in elts):
+                return True
+            if isinstance(l, ast.Name) and l.id == 'c' and all(isinstance(e, ast.Constant) and e.value in allowed_cmp for e in elts):
+                return True
+        if isinstance(t, ast.Compare) and len(t.ops) == 1 and isinstance(t.ops[0], (ast.Eq, ast.NotEq)):
             l, r = t.left, t.comparators[0]
             if isinstance(l, ast.Name) and l.id == 'state' and isinstance(r, ast.Name) and r.id in consts:
                 return True
